@@ -399,6 +399,26 @@ run_case(const Cfg& c0, vh::Rng& rng, bool fd_friendly)
       a << wb.z0 << ' ' << wb.z1 << ' ' << wb.y0 << ' ' << wb.y1 << ' ' << wb.x0 << ' ' << wb.x1 << ' ' << dumpw(c.w);
       emit(buf, a.str());
       verdict(weights_symmetric(c.w) && c.w[0][0][0] == 0.F, c, "default weights are symmetric with zero centre", 0, 0, 0);
+      {
+        // documented: "x-voxel_size divided by the Euclidean distance between the points"
+        const Box wb2 = wbox(c.w);
+        double worst = 0, wa = 0, wb_ = 0;
+        FORBOX(wb2)
+        {
+          if (z == 0 && y == 0 && x == 0)
+            continue;
+          const double ex = static_cast<double>(c.sp[2])
+                            / std::sqrt(std::pow(double(x) * c.sp[2], 2) + std::pow(double(y) * c.sp[1], 2) + std::pow(double(z) * c.sp[0], 2));
+          const double d = std::fabs(c.w[z][y][x] - ex) / (8 * UF * ex);
+          if (d > worst)
+            {
+              worst = d;
+              wa = c.w[z][y][x];
+              wb_ = ex;
+            }
+        }
+        verdict(worst <= 1., c, "default weights are x-voxel-size / Euclidean distance", wa, wb_, 8 * UF * wb_);
+      }
     }
   emit(cfg_line(c), "ok");
   emit("img cur " + dump(*cur, b), "ok");
@@ -416,7 +436,7 @@ run_case(const Cfg& c0, vh::Rng& rng, bool fd_friendly)
       emit("img out " + dump(*out0, b), "ok");
       VoxP ht = api_htimes(*P, *cur, *inp, out0.get());
       emit("htimes", dump(*ht, b));
-      if (b.n() <= 40)
+      if (b.n() <= 64)
         {
           FORBOX(b) rows.push_back(make_coordinate(z, y, x));
         }
@@ -424,7 +444,7 @@ run_case(const Cfg& c0, vh::Rng& rng, bool fd_friendly)
         {
           for (int k = 0; k < 8; ++k)
             rows.push_back(make_coordinate(k & 4 ? b.z1 : b.z0, k & 2 ? b.y1 : b.y0, k & 1 ? b.x1 : b.x0));
-          for (int k = 0; k < 6; ++k)
+          for (int k = 0; k < 8; ++k)
             rows.push_back(make_coordinate(rng.range(b.z0, b.z1), rng.range(b.y0, b.y1), rng.range(b.x0, b.x1)));
         }
       for (auto& rc : rows)
@@ -848,6 +868,69 @@ run_case(const Cfg& c0, vh::Rng& rng, bool fd_friendly)
     }
 }
 
+
+// The negative witnesses of lean/StirVerif/C09/Props.lean (C09_quadratic_expansion_asymmetric_weights_fails,
+// C09_quadratic_H_symmetric_asymmetric_weights_fails, C09_quadratic_expansion_nonzero_centre_fails) replayed on the implementation:
+// 1x1x2 image l = (3,1), e = (1,0), penalisation factor 1, no kappa, weights on the offsets x in {-1,0,1}.
+static void
+replay_witnesses()
+{
+  for (int which = 0; which < 2; ++which)
+    {
+      Cfg c;
+      c.kind = 'Q';
+      c.b = Box{ 0, 0, 0, 0, 0, 1 };
+      c.sp[0] = c.sp[1] = c.sp[2] = 1.F;
+      c.pf = 1.F;
+      c.only2d = false;
+      c.gamma = c.eps = c.scalar = 0.F;
+      c.alpha = c.eta = 0.;
+      c.userw = true;
+      c.wclass = which == 0 ? "asym" : "centre";
+      c.w = Array<3, float>(IndexRange3D(0, 0, 0, 0, -1, 1));
+      if (which == 0)
+        {
+          c.w[0][0][-1] = 0.F;
+          c.w[0][0][0] = 0.F;
+          c.w[0][0][1] = 1.F;
+        }
+      else
+        {
+          c.w[0][0][-1] = 1.F;
+          c.w[0][0][0] = 2.F;
+          c.w[0][0][1] = 1.F;
+        }
+      VoxP l = mk(c.b, c.sp), e = mk(c.b, c.sp), l1 = mk(c.b, c.sp);
+      (*l)[0][0][0] = 3.F;
+      (*l)[0][0][1] = 1.F;
+      (*e)[0][0][0] = 1.F;
+      (*l1)[0][0][0] = 4.F;
+      (*l1)[0][0][1] = 1.F;
+      shared_ptr<Prior> P = build(c, c.pf, l);
+      const double v1 = P->compute_value(*l1), v0 = P->compute_value(*l);
+      VoxP g = api_grad(*P, *l);
+      VoxP He = api_htimes(*P, *l, *e, nullptr);
+      const double ge = dot(*g, *e, c.b), eHe = dot(*e, *He, c.b);
+      // the numbers of the Lean witnesses
+      const double Lv1 = which == 0 ? 2.25 : 4.5, Lv0 = which == 0 ? 1. : 2., Lge = 2., LeHe = which == 0 ? 1. : 3.;
+      verdict(v1 == Lv1 && v0 == Lv0 && ge == Lge && eHe == LeHe, c, "the implementation reproduces the numbers of the Lean negative witness", v1, Lv1, 0);
+      verdict(v1 == v0 + ge + 0.5 * eHe, c, "quadratic expansion value(l+e) = value(l) + <grad,e> + 1/2<e,He> (Lean negative witness replayed)", v1,
+              v0 + ge + 0.5 * eHe, 0,
+              which == 0 ? "quadratic:asymmetric-weights-gradient-not-derivative" : "quadratic:nonzero-centre-weight-hessian-not-second-derivative");
+      if (which == 0)
+        {
+          VoxP e0 = mk(c.b, c.sp), e1 = mk(c.b, c.sp);
+          (*e0)[0][0][0] = 1.F;
+          (*e1)[0][0][1] = 1.F;
+          VoxP He0 = api_htimes(*P, *l, *e0, nullptr), He1 = api_htimes(*P, *l, *e1, nullptr);
+          const double a = dot(*e0, *He1, c.b), b2 = dot(*e1, *He0, c.b);
+          verdict(a == -1. && b2 == 0., c, "the implementation reproduces the numbers of the Lean negative witness (Hessian symmetry)", a, -1, 0);
+          verdict(a == b2, c, "Hessian is symmetric: <u,Hv> = <v,Hu> (Lean negative witness replayed)", a, b2, 0,
+                  "quadratic:asymmetric-weights-gradient-not-derivative");
+        }
+    }
+}
+
 static Cfg
 gen_cfg(vh::Rng& rng, char kind, int k, bool thorough)
 {
@@ -869,6 +952,11 @@ gen_cfg(vh::Rng& rng, char kind, int k, bool thorough)
   if (thorough && k % 16 == 14)
     {
       nz = 8; ny = 9; nx = 10;
+    }
+  if (kind == 'P' && k % 2 == 1)
+    {
+      // PLS: the derivative clause is only claimed for strictly interior voxels: make sure there are some
+      nz = rng.range(3, 5); ny = rng.range(3, 6); nx = rng.range(3, 6);
     }
   c.b.z0 = rng.range(-2, 2);
   c.b.y0 = rng.coin() ? -(ny / 2) : rng.range(-3, 3);
@@ -913,8 +1001,8 @@ gen_cfg(vh::Rng& rng, char kind, int k, bool thorough)
   if (rng.coin())
     {
       c.kappa = mk(b, c.sp);
-      if (kind == 'P' && rng.range(0, 2) > 0)
-        c.kappa->fill(coarse(rng, 0.5F, 12, 0.125F)); // spatially uniform kappa
+      if (kind == 'P' && rng.range(0, 3) > 0)
+        c.kappa->fill(coarse(rng, 0.5F, 12, 0.125F) + 0.0625F); // spatially uniform kappa (never 1)
       else
         fill_positive(*c.kappa, b, rng, true, 0.5F, 2.F);
     }
@@ -949,7 +1037,7 @@ main(int argc, char** argv)
 
   try
     {
-      const int nQ = thorough ? 160 : 40, nR = thorough ? 120 : 30, nL = thorough ? 100 : 24, nP = thorough ? 60 : 16;
+      const int nQ = thorough ? 192 : 48, nR = thorough ? 144 : 36, nL = thorough ? 120 : 30, nP = thorough ? 96 : 24;
       for (int k = 0; k < nQ; ++k)
         run_case(gen_cfg(rng, 'Q', k, thorough), rng, false);
       for (int k = 0; k < nR; ++k)
@@ -958,6 +1046,23 @@ main(int argc, char** argv)
         run_case(gen_cfg(rng, 'L', k, thorough), rng, true);
       for (int k = 0; k < nP; ++k)
         run_case(gen_cfg(rng, 'P', k, thorough), rng, true);
+      replay_witnesses();
+      // PLS: classes of inputs on which the gradient is known not to be the derivative of the value (present for every seed)
+      for (int k = 0; k < 2; ++k)
+        {
+          Cfg c = gen_cfg(rng, 'P', 1, thorough);
+          if (c.pf == 0.F)
+            c.pf = 1.F;
+          c.only2d = false;
+          if (k == 0)
+            c.kappa.reset(); // border voxels, no kappa
+          else
+            {
+              c.kappa = mk(c.b, c.sp);
+              fill_positive(*c.kappa, c.b, rng, true, 0.5F, 2.F); // spatially varying kappa
+            }
+          run_case(c, rng, true);
+        }
       // input classes on which the code is known not to satisfy all clauses (reported under stable keys)
       for (int k = 0; k < 3; ++k)
         {
